@@ -1,5 +1,6 @@
-(* Extraction of the reference-code model (C19): Hash256 and the Merkle root. ExtrOcamlBasic only. *)
-From DbftV Require Import Sha256 RefModel.
+(* Extraction of the reference-code model (C19): Hash256, the Merkle root, and the recovery-message compaction /
+   reconstruction (Ref/Recovery.v). ExtrOcamlBasic only. *)
+From DbftV Require Import Sha256 RefModel Recovery.
 Require Extraction. Require Import ExtrOcamlBasic.
 Extraction Language OCaml.
-Extraction "rmodel.ml" hash256 merkle_root.
+Extraction "rmodel.ml" hash256 merkle_root new_rmsg add build transmit get_request get_responses get_cvs get_precommits get_commits transmit_payload.
